@@ -172,7 +172,10 @@ def gen_phonon(rng, tier, na=None):
     e0 = -_uni(rng, 50.0, 900.0)
     energies = [_sig(bm3_energy(v, v0, b0, bp, e0), max(12, digits)) for v in volumes]
     pressures = [_sig(bm3_pressure(v, v0, b0, bp) * RY_B3_TO_GPA * 10, 8 if digits == 10 else 17) for v in volumes]
+    gamma_first = rng.random() < 0.85
     qcoords = [[0.0, 0.0, 0.0]] + [[round(_uni(rng, 0, 0.5), 4) for _ in range(3)] for _ in range(nq - 1)]
+    if not gamma_first:      # a shifted mesh that does not contain the origin: every mode of every q-point is an ordinary positive frequency
+        qcoords[0] = [round(_uni(rng, 0.05, 0.5), 4) for _ in range(3)]
     if rng.random() < 0.5:
         weights = [float(rng.randint(1, 12)) for _ in range(nq)]
     else:
@@ -182,7 +185,7 @@ def gen_phonon(rng, tier, na=None):
     modes = []
     for q in range(nq):
         for m in range(np_):
-            if q == 0 and m < 3:
+            if q == 0 and m < 3 and gamma_first:
                 if small_gamma:
                     for iv in range(nv):
                         freqs[iv][q][m] = -round(_uni(rng, 0.0, 0.9), 4)
@@ -195,7 +198,7 @@ def gen_phonon(rng, tier, na=None):
                 x = math.log(v / v0)
                 freqs[iv][q][m] = _sig(w0 * math.exp(-g * x + b * x * x), digits)
     return {
-        "digits": digits,
+        "digits": digits, "gamma_first": gamma_first,
         "nv": nv, "nq": nq, "np": np_, "nm": nm, "na": na,
         "v0": v0, "b0": b0, "bp": bp, "e0": e0,
         "volumes": volumes, "energies": energies, "pressures": pressures,
@@ -225,7 +228,7 @@ def _draw_params(rng, system, integer):
     return p, dep
 
 
-def gen_static(rng, tier, phonon, system=None, force_lattice=None, cli_spelling=False):
+def gen_static(rng, tier, phonon, system=None, force_lattice=None, cli_spelling=False, noise=False):
     big = tier == "thorough"
     if system is None:
         system = rng.choice(SYSTEMS)
@@ -283,14 +286,30 @@ def gen_static(rng, tier, phonon, system=None, force_lattice=None, cli_spelling=
     else:
         prefix = rng.choice(["c", "c", "C", "c_", "C_", "cij"])
     std_spelling = (not cli_spelling) and rng.random() < 0.1
+    swap_spelling = (not cli_spelling) and (not std_spelling) and rng.random() < 0.2     # c21 for c12: the larger subscript first
     names = []
     for k in order:
-        if std_spelling:
+        if swap_spelling and k[0] != k[1] and rng.random() < 0.6:
+            names.append(prefix + k[1] + k[0])
+        elif std_spelling:
             from_voigt = {1: "11", 2: "22", 3: "33", 4: "23", 5: "13", 6: "12"}
             names.append(prefix + from_voigt[int(k[0])] + from_voigt[int(k[1])])
         else:
             names.append(prefix + k)
     values = [[(_sig(r[k], digits) if not integer else r[k]) for k in order] for r in rows]
+    noisy = []
+    if noise and not integer and system != "triclinic":
+        # redundant supplied members of one relation class disagree a little, well inside the residual tolerance (sum of squares 0.1):
+        # the filled table carries the least-squares reconciliation
+        cands = [g for g in GROUPS[system] if len([k for k in g if k in order]) >= 2]
+        rng.shuffle(cands)
+        for g in cands[:2]:
+            k = rng.choice([x for x in g if x in order])
+            d = rng.choice([-1, 1]) * _sig(_uni(rng, 0.02, 0.08), 3)
+            j = order.index(k)
+            for row in values:
+                row[j] = _sig(row[j] + d, digits)
+            noisy.append([k, d])
     int_cols = [bool(integer and rng.random() < 0.6) for _ in order]
     # lattice block
     has_lattice = (rng.random() < 0.5) if force_lattice is None else force_lattice
@@ -313,7 +332,7 @@ def gen_static(rng, tier, phonon, system=None, force_lattice=None, cli_spelling=
             base[2] = base[0]
         lattice = [[_sig(base[i] * (v / v0) ** expo[i], digits) for i in range(3)] for v in volumes]
     return {
-        "system": system, "integer": integer, "digits": max(digits, phonon.get("digits", 10)) if same_volumes else digits,
+        "system": system, "integer": integer, "noisy": noisy, "digits": max(digits, phonon.get("digits", 10)) if same_volumes else digits,
         "vref": _sig(v0, digits), "cellmass": _sig(phonon["na"] * _uni(rng, 12.0, 40.0), 7),
         "volumes": volumes, "keys": order, "names": names, "values": values,
         "int_cols": int_cols, "lattice": lattice, "lattice_expo": expo,
@@ -392,6 +411,14 @@ def gen_settings(rng, tier, phonon, static, method=None, order=None, overshoot=F
         qs["order"] = 3
     if rng.random() < 0.5:
         qs["static_only"] = False
+    # a key whose value is the documented default may simply be left out of the settings file
+    for key, default in (("T_MIN", 0), ("P_MIN", 0), ("DELTA_P", 1), ("DT", 100)):
+        if key in qs and qs[key] == default and type(qs[key]) is int and rng.random() < 0.4:
+            del qs[key]
+            if key == "DELTA_P":
+                qs.pop("DELTA_P_SAMPLE", None)
+            if key == "DT":
+                qs.pop("DT_SAMPLE", None)
     keys = list(qs)
     rng.shuffle(keys)
     qs = {k: qs[k] for k in keys}
@@ -502,7 +529,7 @@ def gen_world(rng, tier, name, **kw):
     phonon = gen_phonon(rng, tier, na=kw.get("na"))
     static = gen_static(rng, tier, phonon, system=kw.get("system"),
                         force_lattice=kw.get("force_lattice"),
-                        cli_spelling=kw.get("cli_spelling", False))
+                        cli_spelling=kw.get("cli_spelling", False), noise=kw.get("noise", False))
     settings = gen_settings(rng, tier, phonon, static, method=kw.get("method"),
                             order=kw.get("order"), overshoot=kw.get("overshoot", False),
                             dt=kw.get("dt"), full_output=kw.get("full_output", False), low_tmin=kw.get("low_tmin", False))
